@@ -9,7 +9,7 @@ SCALARS = ["Float64", "Int64", "Int32", "UInt8", "Float32"]
 _uid = [0]
 
 
-def build_types(spec, tag):
+def build_types(spec, tag, warm_roots=None):
     """spec: list of nodes {kind, ...}; returns list of python type objects"""
     T = []
     for i, d in enumerate(spec):
@@ -36,6 +36,13 @@ def build_types(spec, tag):
         elif k == "union":
             t = type("U%s_%d" % (tag, i), (xo.UnionRef,), {"_reftypes": [T[m] for m in d["members"]]})
         T.append(t)
+    if warm_roots is not None:
+        # the classes are sorted once BEFORE their graph is completed (declared dependencies / union members are
+        # registered afterwards): whatever sort_classes remembers of a class must not survive the change
+        try:
+            xo.context.sort_classes([T[r] for r in warm_roots])
+        except BaseException:  # noqa
+            pass
     # late edges (may create cycles)
     for i, d in enumerate(spec):
         if d.get("depends"):
@@ -49,7 +56,7 @@ def run_case(c, do_build=False):
     _uid[0] += 1
     tag = "%d" % _uid[0]
     spec = c["spec"]
-    T = build_types(spec, tag)
+    T = build_types(spec, tag, c["roots"] if c.get("warm") else None)
     ident = {id(t): i for i, t in enumerate(T)}
     roots = [T[r] for r in c["roots"]]
     res = {}
@@ -162,7 +169,7 @@ def main():
     out = []
     if "replay" in req:
         for c in req["replay"]:
-            out.append({"spec": c["spec"], "roots": c["roots"], "res": run_case(c, do_build=c.get("build", True))})
+            out.append({"spec": c["spec"], "roots": c["roots"], "warm": c.get("warm", False), "res": run_case(c, do_build=c.get("build", True))})
     else:
         rng = random.Random(req["seed"])
         for n in range(1, req.get("exh_n", 0) + 1):
@@ -193,8 +200,25 @@ def main():
                 if extra != r1 and r1 not in edges_of(spec).get(extra, []):
                     spec.append({"kind": "struct", "fields": list(spec[r1]["fields"]) + [extra], "same_name_as": r1})
                     roots.append(len(spec) - 1)
-            c = {"spec": spec, "roots": roots}
-            out.append({"spec": spec, "roots": roots, "res": run_case(c, do_build=(i < nb))})
+            c = {"spec": spec, "roots": roots, "warm": (i % 3 == 2) and any(d.get("depends") or d.get("late_members") for d in spec)}
+            out.append({"spec": spec, "roots": roots, "warm": c["warm"], "res": run_case(c, do_build=(i < nb))})
+        # directed: a struct whose reference-holding field comes BEFORE a field of a compound type used nowhere else
+        # (Ref / UnionRef / nested reference-holder first), alone as root and with the other type before / after it
+        for first in ("ref", "union", "nested"):
+            for later in ("struct", "array"):
+                base = [{"kind": "scalar", "name": "Float64"}, {"kind": "struct", "fields": [0]}, {"kind": "struct", "fields": [0, 0]}]
+                if first == "ref": base.append({"kind": "ref", "target": 1})
+                elif first == "union": base.append({"kind": "union", "members": [1]})
+                else: base += [{"kind": "ref", "target": 1}, {"kind": "struct", "fields": [3]}]
+                fi = len(base) - 1
+                li = 2
+                if later == "array":
+                    base.append({"kind": "array", "item": 2, "shape": [None]}); li = len(base) - 1
+                base.append({"kind": "struct", "fields": [fi, li, 0]})
+                top = len(base) - 1
+                for roots in ([top], [top, li], [li, top], [top, 2]):
+                    c = {"spec": base, "roots": roots}
+                    out.append({"spec": base, "roots": roots, "res": run_case(c, do_build=(roots == [top]))})
     print(json.dumps({"cases": out}))
 
 
